@@ -42,6 +42,7 @@ void coop_end(coop_stats_t *out);
 int coop_active(void);
 int coop_self(void);                         /* managed thread id or -1 */
 int coop_threads_alive(void);                /* managed, not finished */
+int coop_library_threads_alive(void);        /* of those, the ones the library created (writer thread) */
 const char *coop_thread_name(int id);
 /* addresses of the mutexes held by the calling thread; returns count */
 int coop_held(const void **out, int max);
